@@ -66,7 +66,9 @@ func (c *Collection) Snapshot(dst io.Writer) error {
 	simYield(c, simSnapshotPhase, 1)
 	// Take a snapshot of the current state
 	defer os.Remove(recorder.Name())
+	defer recorder.Close()
 	if _, err := c.writeState(s2.NewWriter(dst)); err != nil {
+		c.recorderClose() // the snapshot is over, let the next one start
 		return err
 	}
 
